@@ -271,6 +271,9 @@ fn get_method(
                     if let Some(repeat) = override_values.repeat {
                         reffed_object.repeat = Some(repeat);
                     }
+                    if override_values.allow_address_overlap {
+                        reffed_object.allow_address_overlap = true;
+                    }
                 }
                 mir::ObjectOverride::Command(override_values) => {
                     let reffed_object = reffed_object
@@ -284,6 +287,9 @@ fn get_method(
                     }
                     if let Some(repeat) = override_values.repeat {
                         reffed_object.repeat = Some(repeat);
+                    }
+                    if override_values.allow_address_overlap {
+                        reffed_object.allow_address_overlap = true;
                     }
                 }
             }
